@@ -130,13 +130,19 @@ u_lengths(uint64_t idx, void *arg)
     }
     unsigned char raw[400], pl[300], wire[900];
     char key[80], ctx[160];
+    /* TCP frames come without checksum words as the library's own emitters send them, and with both checksum options
+     * set (the receiver decides by the frame's option bits on either transport) */
+    for (int crc = serial; crc <= 1; crc++)
     for (size_t L = 0; L <= cap + 40; L++) {
+        hdr = crc ? 16 : 12;
+        if (crc && !serial)
+            VH_COUNT("lengths: TCP frame with checksum options");
         fresh(serial, 0, B);
         /* a valid 8-bit write request of total length L when L allows a header, else a header cut short */
         for (size_t i = 0; i < sizeof pl; i++)
             pl[i] = (unsigned char)(i * 5 + L);
         size_t P = L > hdr ? L - hdr : 0;
-        size_t n = mk_request(raw, serial, RT_WRITE_REQ, 0, (uint16_t)(L + 7), 0x1000u + (uint32_t)L, (uint32_t)P, pl, P);
+        size_t n = mk_request(raw, crc, RT_WRITE_REQ, 0, (uint16_t)(L + 7), 0x1000u + (uint32_t)L, (uint32_t)P, pl, P);
         if (n > L)
             n = L; /* cut short */
         while (n < L)
@@ -145,7 +151,7 @@ u_lengths(uint64_t idx, void *arg)
         rp_feed(&H, wire, wn);
         VH_CASE4(idx, B, L, n);
         snprintf(key, sizeof key, "workload=lengths transport=%s", serial ? "serial" : "tcp");
-        snprintf(ctx, sizeof ctx, "block=%zu (capacity %zu) frame length %zu: %s", B, cap, n, vh_hex(raw, n > 20 ? 20 : n));
+        snprintf(ctx, sizeof ctx, "block=%zu (capacity %zu) frame length %zu%s: %s", B, cap, n, crc && !serial ? " with checksum options" : "", vh_hex(raw, n > 20 ? 20 : n));
         struct obs o;
         exchange(&o, key, ctx);
         struct rframe f;
@@ -642,6 +648,7 @@ harness_run(void)
     for (uint64_t i = 0; i < (vh_tier ? 200000u : 2500u); i++)
         vh_unit("stream", i, u_stream, NULL);
     vh_require("giant: frame of 2^31 octets or more delivered in full");
+    vh_require("lengths: TCP frame with checksum options");
     static const char *req[] = { "frame larger than the receive block", "empty frame", "frame shorter than a header",
                                  "frame that just fits is executed", "read that cannot fit", "read that fits",
                                  "read in the zone where the header accounting decides (either answer accepted)",
